@@ -214,3 +214,60 @@ def replay_lines(ctx, case, want):
             print('   ', k, outline.strip_sgr(p))
     if bad is None and not ctx.violations:
         print('replay: every line is shown as the stored ground truth expects (the original report may have been about recorded state: %r)' % (case.get('first_bad_line'),))
+
+
+def deep_table(ctx, n, props=('C02', 'C03', 'C14')):
+    """One id (client range) and one server-range id pushed through n incarnations on a real ConnectionImpl, driven through
+    the connection's own interface (create_object / destroy / retrieve_object) - no parsing, no printing - so that depths of a
+    million are affordable.  After every creation: the new object is the n-th of its id, is the only alive one, its label is
+    the n-th label, and the latest-object lookup returns it.  Labels are compared against history.letters() and collected
+    in a set (no two objects of one id share a label)."""
+    env.setup()
+    env.load_protocols()
+    env.reset_globals(False)
+    from core import ConnectionManager
+    from core.util import no_color
+    cm = ConnectionManager()
+    conn = cm.open_connection(0.0, 'deep', None)
+    disp = conn.wl_display()
+    case = {'deep_table': n}
+    for oid, typ in ((3, 'wl_callback'), (0xff000000, 'wl_data_offer')):
+        seen = set()
+        prev = None
+        for i in range(n):
+            t = i * 0.001
+            try:
+                ob = conn.create_object(t, disp, oid, typ)
+            except Exception as e:
+                ctx.violation('deep-create', 'incarnation %d of id %d: create_object raised %s: %r' % (i, oid, type(e).__name__, e), case)
+                return
+            lab = no_color(ob.id_str())
+            want = '@%d%s' % (oid, history.letters(i))
+            if ob.generation != i or lab != want:
+                ctx.violation('deep-label', 'the %d-th object with id %d is labelled %s (generation %r), expected %s' % (i + 1, oid, lab, ob.generation, want), case)
+                return
+            if lab in seen:
+                ctx.violation('deep-label-shared', 'label %s given to two objects of id %d (the second is number %d)' % (lab, oid, i + 1), case)
+                return
+            seen.add(lab)
+            if prev is not None and prev.alive:
+                ctx.violation('deep-two-alive', 'after creating %s the previous incarnation %s is still alive' % (lab, no_color(prev.id_str())), case)
+                return
+            if conn.retrieve_object(oid, -1, None) is not ob:
+                ctx.violation('deep-latest', 'the latest object with id %d is not the one just created (%s)' % (oid, lab), case)
+                return
+            if i % 4099 == 0 and i:
+                j = i // 2
+                mid = conn.retrieve_object(oid, j, None)
+                if mid.generation != j or no_color(mid.id_str()) != '@%d%s' % (oid, history.letters(j)):
+                    ctx.violation('deep-lookup', 'incarnation %d of id %d looked up after %d creations is %s' % (j, oid, i + 1, no_color(mid.id_str())), case)
+                    return
+            if oid < 0xff000000:
+                ob.destroy(t + 0.0005)        # (server-range ids are destroyed by the next creation)
+                if ob.lifespan() is None or abs(ob.lifespan() - 0.0005) > 1e-9:
+                    ctx.violation('deep-lifespan', 'object %s created at %.4f destroyed at %.4f has lifespan %r' % (lab, t, t + 0.0005, ob.lifespan()), case)
+                    return
+            prev = ob
+        ctx.ev(n)
+        ctx.count('deep_table_incarnations', n)
+        ctx.counters['deep_table_depth'] = max(ctx.counters.get('deep_table_depth', 0), n)
